@@ -216,6 +216,50 @@ func checkC05(r *Result) {
 				continue
 			}
 			leaves, odd := validatorSources(Arg(cs.Instr, 4))
+			// a value that reaches the call through a phi at a loop header was produced in an earlier iteration
+			{
+				seenV := map[ssa.Value]bool{}
+				var carried func(x ssa.Value, d int) bool
+				carried = func(x ssa.Value, d int) bool {
+					if x == nil || seenV[x] || d > 14 {
+						return false
+					}
+					seenV[x] = true
+					switch y := x.(type) {
+					case *ssa.Phi:
+						for _, lh := range loopHeaders(fn) {
+							if y.Block() == lh && lh.Dominates(cs.Instr.Block()) && inLoop(fn, cs.Instr.Block()) {
+								return true
+							}
+						}
+						for _, e := range y.Edges {
+							if carried(e, d+1) {
+								return true
+							}
+						}
+					case *ssa.Extract:
+						return carried(y.Tuple, d+1)
+					case *ssa.UnOp:
+						return carried(y.X, d+1)
+					case *ssa.IndexAddr:
+						return carried(y.X, d+1)
+					case *ssa.Index:
+						return carried(y.X, d+1)
+					case *ssa.FieldAddr:
+						return carried(y.X, d+1)
+					case *ssa.Alloc:
+						for _, ref := range *y.Referrers() {
+							if st, ok := ref.(*ssa.Store); ok && st.Addr == ssa.Value(y) && carried(st.Val, d+1) {
+								return true
+							}
+						}
+					}
+					return false
+				}
+				if carried(Arg(cs.Instr, 4), 0) {
+					odd = append(odd, "the value can come from an earlier iteration (loop-carried)")
+				}
+			}
 			var h *ssa.BasicBlock
 			for _, c := range loopHeaders(fn) {
 				if c.Dominates(cs.Instr.Block()) && inLoop(fn, cs.Instr.Block()) && (h == nil || h.Dominates(c)) {
